@@ -15,10 +15,10 @@ func init() {
 	register(&Rule{ID: "E-STABLE-SORT", Props: []string{"C13", "C02", "C14"}, Floor: 1,
 		Doc: "the helpers the SortByNode case of evaluate dispatches to (transitively, within the repository) call a stable sort (sort.Stable, sort.SliceStable, slices.SortStableFunc) and no unstable one",
 		Run: ruleEStableSort})
-	register(&Rule{ID: "E-LESS-STRICT", Props: []string{"C13"}, Floor: 1,
+	register(&Rule{ID: "E-LESS-STRICT", Props: []string{"C13"}, Floor: 0,
 		Doc: "every Less method of a repository type compares strictly (< or >, never <= or >=): a non-strict Less breaks stability and the sort contract",
 		Run: ruleELessStrict})
-	register(&Rule{ID: "E-SWAP-COMPLETE", Props: []string{"C13"}, Floor: 1,
+	register(&Rule{ID: "E-SWAP-COMPLETE", Props: []string{"C13"}, Floor: 0,
 		Doc: "every Swap method exchanges elements i and j of every slice field of its receiver (items and keys must move together)",
 		Run: ruleESwapComplete})
 	register(&Rule{ID: "E-CMP-PURE", Props: []string{"C13", "C03"}, Floor: 1,
@@ -112,6 +112,40 @@ func ruleEStableSort(p *Program, r *Reporter) {
 	}
 	fns := repoClosure(p, roots)
 	stable, unstable := 0, 0
+	// an unstable sort is acceptable when its comparator is a total order that falls back on the original position:
+	// decided by interpreting the sort_by helper and, at each call of the sort, its comparator on the first two
+	// elements with equal keys (vdom.probeComparator)
+	probes := map[token.Pos][]string{}
+	probed := false
+	probe := func() {
+		if probed {
+			return
+		}
+		probed = true
+		d := newValDom(p)
+		if d.why != "" {
+			return
+		}
+		d.toDecimal = numericRoles(p).toDecimal
+		d.sortProbe, d.opaqueSort = true, true
+		for _, root := range roots {
+			top := root
+			for top.Parent() != nil {
+				top = top.Parent()
+			}
+			vr, why := d.run(top, 3, nil)
+			if why != "" {
+				continue
+			}
+			for _, o := range vr.outs {
+				for _, ev := range o.St.Trace {
+					if ev.Kind == "sort-probe" {
+						probes[ev.Pos] = append(probes[ev.Pos], ev.Note)
+					}
+				}
+			}
+		}
+	}
 	for _, fn := range fns {
 		for _, b := range fn.Blocks {
 			for _, in := range b.Instrs {
@@ -126,7 +160,24 @@ func ruleEStableSort(p *Program, r *Reporter) {
 					r.OK(in.Pos(), fmt.Sprintf("%s calls %s", p.FuncName(fn), n), "stable sort")
 				case unstableSorts[n]:
 					unstable++
-					r.Bad(instrPos(in), fmt.Sprintf("%s calls %s", p.FuncName(fn), n), "sort_by reaches an unstable sort: elements with equal keys can be reordered once the array exceeds the insertion-sort threshold (12)")
+					probe()
+					okN, badNote := 0, ""
+					for _, note := range probes[in.Pos()] {
+						if strings.HasPrefix(note, "ok:") {
+							okN++
+						} else if badNote == "" {
+							badNote = note
+						}
+					}
+					if okN > 0 && badNote == "" {
+						r.OK(in.Pos(), fmt.Sprintf("%s calls %s", p.FuncName(fn), n), fmt.Sprintf("an unstable sort whose comparator never reports a tie: on each of the %d interpreted paths over two elements with equal keys it orders the earlier element first", okN))
+						continue
+					}
+					msg := "sort_by reaches an unstable sort: elements with equal keys can be reordered once the array exceeds the insertion-sort threshold (12)"
+					if badNote != "" {
+						msg += " (comparator interpreted on two elements: " + badNote + ")"
+					}
+					r.Bad(instrPos(in), fmt.Sprintf("%s calls %s", p.FuncName(fn), n), msg)
 				}
 			}
 		}
@@ -137,10 +188,16 @@ func ruleEStableSort(p *Program, r *Reporter) {
 }
 
 func ruleELessStrict(p *Program, r *Reporter) {
+	found := 0
+	defer func() {
+		// a code base that sorts without sort.Interface has no Less method: E-STABLE-SORT decides its comparators
+		r.Trivial(token.NoPos, "scan", fmt.Sprintf("%d reachable Less methods", found))
+	}()
 	for _, fd := range p.FuncDecls(p.Eval) {
 		if fd.Name.Name != "Less" || fd.Recv == nil || !p.ReachDecl(fd) {
 			continue
 		}
+		found++
 		key := "evaluator." + DeclName(fd)
 		if len(fd.Body.List) != 1 {
 			r.Unknown(fd.Pos(), key, "Less is not a single return statement")
@@ -177,10 +234,15 @@ func ruleELessStrict(p *Program, r *Reporter) {
 }
 
 func ruleESwapComplete(p *Program, r *Reporter) {
+	found := 0
+	defer func() {
+		r.Trivial(token.NoPos, "scan", fmt.Sprintf("%d reachable Swap methods", found))
+	}()
 	for _, fd := range p.FuncDecls(p.Eval) {
 		if fd.Name.Name != "Swap" || fd.Recv == nil || !p.ReachDecl(fd) {
 			continue
 		}
+		found++
 		recvField := fd.Recv.List[0]
 		rt := p.Eval.TypesInfo.TypeOf(recvField.Type)
 		st, ok := derefType(rt).Underlying().(*types.Struct)
